@@ -1,11 +1,11 @@
-"""C06 - catchment delineation is upstream reachability on the flow grid (relations, area == reachable set, river traces proved; listing-once and hole filling bounded)."""
+"""C06 - catchment delineation is upstream reachability on the flow grid (relations, area == reachable set, river traces proved; listed once on acyclic grids proved; hole filling bounded)."""
 from vf.check import Run
 from props import common as cm
 
 
 def run(tier):
     r = Run('C06', tier, level='other')
-    cm.run_kernels(r, cm.kernels('c_neighbours', 'c_upstream', 'c_downstream', 'c_delineate_area', 'c_delineate_area#reach', 'c_delineate_river',
+    cm.run_kernels(r, cm.kernels('c_neighbours', 'c_upstream', 'c_downstream', 'c_delineate_area', 'c_delineate_area#reach', 'c_delineate_area#once', 'c_delineate_river',
                                  'c_delineate_flowpathlengths_in_catchment'))
     cm.run_monitors(r, ['mon_area', 'mon_updown', 'mon_paths'])
     cm.lean_lemma(r, tier, 'Reach.lean', 'listed_iff_reach', 'c_delineate_area#reach',
@@ -17,6 +17,7 @@ def run(tier):
                      'c_delineate_area#reach: on success every listed cell is the outlet or a non-inlet cell whose downstream cell is the outlet or listed earlier, '
                      'every non-inlet cell draining into the outlet or a listed cell is listed, the outlet is listed when anything is, the rest of the vector keeps -1 '
                      '(=> listed <=> reaches the outlet, lean/Reach.lean); river trace follows the downstream chain with row/column offsets and cumulated '
-                     'Euclidean distance, memory safety and termination of the area delineation; bounded: each cell listed once, hole filling, python wrappers '
+                     'Euclidean distance, memory safety and termination of the area delineation; c_delineate_area#once: on a grid without flow cycles (height function) '
+                     'a successful run lists every cell at most once; bounded: hole filling, python wrappers, cyclic grids '
                      '(monitor with a fix-point oracle)')
     return r.finish()
